@@ -99,7 +99,7 @@ let () =
         try
           match w with
           | ["G"; os; _] ->
-            if List.mem os ["def"; "full"; "fast"; "stable"; "link"; "nokey"] then begin
+            if List.mem os ["def"; "full"; "fast"; "stable"; "link"; "nokey"; "intv"] then begin
               have := true; st := ([], []); efd := None;
               vmin := (if os = "link" then z_of_int (-32768) else z_of_int (-2147483648));
               "ok" end
